@@ -822,4 +822,366 @@ theorem set_build_site_examples :
       some ⟨"t", .named, some "t_1".toList, .valueErr⟩ := by
   decide
 
+/-! ### deserialization at any nesting depth (Sem/Errors.lean `dHead`, `p1SiteD` over `deser` of
+    Sem/Deser.lean): the wrapper guarantee of every container kind, for every declaration -/
+
+theorem c18_startsWith_append (a b : Text) : startsWith a (a ++ b) = true := by
+  unfold startsWith; exact dropPre_isSome_append a b
+
+theorem c18_startsWith_self (a : Text) : startsWith a a = true := by
+  have := c18_startsWith_append a []
+  simpa using this
+
+theorem c18_startsWith_trans (a b t : Text) (h : startsWith (a ++ b) t = true) : startsWith a t = true := by
+  unfold startsWith at h ⊢
+  cases hd : dropPre (a ++ b) t with
+  | none => simp [hd] at h
+  | some r =>
+    have := dropPre_eq _ _ _ hd
+    rw [this, List.append_assoc]
+    exact dropPre_isSome_append _ _
+
+theorem dWrapIdx_starts (name : Text) (i : Nat) (inner : Text) :
+    startsWith name (dWrapIdx name i inner) = true := by
+  unfold dWrapIdx
+  simp only []
+  split
+  · rename_i h; exact c18_startsWith_trans _ _ _ h
+  · exact c18_startsWith_append _ _
+
+theorem dWrapMap_starts (name inner : Text) : startsWith name (dWrapMap name inner) = true := by
+  unfold dWrapMap
+  split
+  · rename_i h
+    simp only [Bool.or_eq_true] at h
+    cases h with
+    | inl h => exact c18_startsWith_trans _ _ _ h
+    | inr h => exact c18_startsWith_trans _ _ _ h
+  · exact c18_startsWith_self _
+
+theorem dHeadEntries_starts (okK okV : PyVal → Bool) (hK hV : Text → PyVal → Text) (name : Text)
+    (kvs : List (PyVal × PyVal)) (h : Text) (hh : dHeadEntries okK okV hK hV name kvs = some h) :
+    startsWith name h = true := by
+  induction kvs with
+  | nil => simp [dHeadEntries] at hh
+  | cons kv rest ih =>
+    obtain ⟨k, x⟩ := kv
+    simp only [dHeadEntries] at hh
+    split at hh
+    · simp only [Option.some.injEq] at hh; subst hh; exact dWrapMap_starts _ _
+    · split at hh
+      · simp only [Option.some.injEq] at hh; subst hh; exact dWrapMap_starts _ _
+      · exact ih hh
+
+theorem dHeadZip_starts (O : Oracles) (opts : DeserOpts) (name : Text) (fs : List FieldDecl) :
+    ∀ (i : Nat) (xs : List PyVal) (h : Text), dHeadZip O opts name i fs xs = some h → startsWith name h = true := by
+  induction fs with
+  | nil => intro i xs h hh; simp [dHeadZip] at hh
+  | cons f fs ih =>
+    intro i xs h hh
+    cases xs with
+    | nil => simp [dHeadZip] at hh
+    | cons x xs =>
+      simp only [dHeadZip] at hh
+      split at hh
+      · exact ih _ _ _ hh
+      · simp only [Option.some.injEq] at hh; subst hh
+        simp only [List.append_assoc]
+        exact c18_startsWith_append _ _
+
+theorem dHeadListLike_starts (name : Text) (v : PyVal) (k : List PyVal → Option Text)
+    (hk : ∀ xs h, k xs = some h → startsWith name h = true) :
+    startsWith name (dHeadListLike name v k) = true := by
+  unfold dHeadListLike
+  cases listLike v with
+  | none => exact c18_startsWith_append _ _
+  | some xs =>
+    simp only []
+    cases hh : k xs with
+    | none => exact c18_startsWith_append _ _
+    | some h => exact hk xs h hh
+
+
+/-- the fields whose own scratch `_name` is the only source of the path (no wrapper of their own) -/
+def isBareScalar : FieldDecl → Bool
+  | .number _ | .integer _ | .float _ | .string _ _ _ | .boolean | .anything => true
+  | _ => false
+
+/-- the wrapper guarantee at ANY nesting depth: whatever `deserialize_single_field(f, v, name)`
+    raises begins with `name` — for every declaration (collections of collections, positional
+    items, maps of arrays, inline structures, AnyOf / OneOf / AllOf / NotField, Enum, …), every
+    document value and every scratch state — EXCEPT a class reference given a dict (the nested
+    structure's error passes through unchanged) and the bare scalars (their own `_name`) -/
+theorem dHead_starts (O : Oracles) (opts : DeserOpts) (f : FieldDecl) (name : Text) (v : PyVal)
+    (hs : isBareScalar f = false) (hc : (isClassRef f && isDictVal v) = false) :
+    startsWith name (dHead O opts f name v) = true := by
+  have hhom : ∀ (ok : PyVal → Bool) (g : Text → PyVal → Text) (xs : List PyVal) (h : Text),
+      dHeadHomog ok g name xs = some h → startsWith name h = true := by
+    intro ok g xs h hh
+    simp only [dHeadHomog, Option.map_eq_some_iff] at hh
+    obtain ⟨ix, _, hh⟩ := hh
+    subst hh
+    exact dWrapIdx_starts _ _ _
+  have hpos : ∀ (fs : List FieldDecl) (xs : List PyVal) (h : Text),
+      (if xs.length < fs.length then none else dHeadZip O opts name 0 fs xs) = some h →
+        startsWith name h = true := by
+    intro fs xs h hh
+    split at hh
+    · simp at hh
+    · exact dHeadZip_starts O opts name fs 0 xs h hh
+  cases f <;> simp only [isBareScalar, Bool.true_eq_false] at hs <;> simp only [dHead]
+  case seqAny => exact dHeadListLike_starts _ _ _ (fun _ _ hn => by simp at hn)
+  case setAny => exact dHeadListLike_starts _ _ _ (fun _ _ hn => by simp at hn)
+  case seqOf => exact dHeadListLike_starts _ _ _ (hhom _ _)
+  case setOf => exact dHeadListLike_starts _ _ _ (hhom _ _)
+  case tupleOf => exact dHeadListLike_starts _ _ _ (hhom _ _)
+  case seqPos => exact dHeadListLike_starts _ _ _ (hpos _)
+  case tuplePos => exact dHeadListLike_starts _ _ _ (hpos _)
+  case mapAny => exact c18_startsWith_append _ _
+  case mapOf =>
+    cases v <;> try exact c18_startsWith_append _ _
+    simp only []
+    cases hh : dHeadEntries _ _ _ _ name _ with
+    | none => exact c18_startsWith_self _
+    | some h => exact dHeadEntries_starts _ _ _ _ _ _ _ hh
+  case struct c fields defaults =>
+    by_cases hi : c.inline = true
+    · simp only [hi, if_true]; exact c18_startsWith_append _ _
+    · simp only [hi]
+      cases v <;> first
+        | exact c18_startsWith_append _ _
+        | (simp [isClassRef, isDictVal, hi] at hc)
+  case enumLit => exact c18_startsWith_self _
+  case enumCls => exact c18_startsWith_self _
+  all_goals exact c18_startsWith_append _ _
+
+/-- a flat declaration is never a class reference -/
+theorem isFlat_not_classRef (f : FieldDecl) (h : isFlatDecl f = true) : isClassRef f = false := by
+  cases f <;> simp_all [isFlatDecl, isClassRef, isScalarDecl]
+
+/-- DESERIALIZATION, every declaration, any depth: every phase-one rejection site is `named` and
+    its text begins with ITS OWN top-level field's name — except exactly the site of the open
+    finding `no-path:nested-structure:deser-classref` (a top-level class reference given a dict),
+    which the model marks `nested` -/
+theorem p1SiteD_names_own_field (O : Oracles) (opts : DeserOpts) (ign : Bool)
+    (scr : List (Option String)) (name : String) (f : FieldDecl) (v : PyVal) (s : P1Site)
+    (h : p1SiteD O opts ign scr name f v = some s)
+    (hx : (isClassRef f && isDictVal v) = false) :
+    s.kind = .named ∧ s.top = name ∧ s.namesOwnField = true := by
+  unfold p1SiteD at h
+  by_cases hf : isFlatDecl f = true
+  · simp only [hf, if_true] at h
+    exact p1_names_own_field O scr name f v s h
+  · simp only [hf] at h
+    cases hd : deser O opts ign f v with
+    | ok y => simp [hd] at h
+    | error e =>
+      simp only [hd] at h
+      rw [hx] at h
+      simp only [Bool.false_eq_true, if_false, Option.some.injEq] at h
+      subst h
+      refine ⟨rfl, rfl, ?_⟩
+      simp only [P1Site.namesOwnField]
+      have hbare : isBareScalar f = false := by
+        cases f <;> simp_all [isBareScalar, isFlatDecl, isScalarDecl, deser]
+      exact dHead_starts O opts f name.toList v hbare hx
+
+/-- … and the excluded site is exactly where the model puts the finding: kind `nested`, no head -/
+theorem p1SiteD_nested_iff (O : Oracles) (opts : DeserOpts) (ign : Bool)
+    (scr : List (Option String)) (name : String) (f : FieldDecl) (v : PyVal) (s : P1Site)
+    (h : p1SiteD O opts ign scr name f v = some s) :
+    s.kind = .nested ↔ (isClassRef f && isDictVal v) = true := by
+  constructor
+  · intro hk
+    cases hx : (isClassRef f && isDictVal v) with
+    | true => rfl
+    | false =>
+      have := (p1SiteD_names_own_field O opts ign scr name f v s h hx).1
+      rw [this] at hk
+      exact absurd hk (by decide)
+  · intro hx
+    unfold p1SiteD at h
+    have hnf : isFlatDecl f = false := by
+      cases hf : isFlatDecl f with
+      | false => rfl
+      | true => simp [isFlat_not_classRef f hf] at hx
+    simp only [hnf, Bool.false_eq_true, if_false] at h
+    cases hd : deser O opts ign f v with
+    | ok y => simp [hd] at h
+    | error e =>
+      simp only [hd] at h
+      rw [hx] at h
+      simp only [if_true, Option.some.injEq] at h
+      subst h
+      rfl
+
+/-- a site exists exactly for the document values `deserialize_single_field` rejects (`deser`,
+    Sem/Deser.lean, for the non-flat declarations; `p1Rejects` for the flat ones) -/
+theorem p1SiteD_isSome (O : Oracles) (opts : DeserOpts) (ign : Bool)
+    (scr : List (Option String)) (name : String) (f : FieldDecl) (v : PyVal) :
+    (p1SiteD O opts ign scr name f v).isSome =
+      (if isFlatDecl f then p1Rejects O f v else !isOk (deser O opts ign f v)) := by
+  unfold p1SiteD
+  cases hf : isFlatDecl f with
+  | true => simp only [if_true]; exact p1Site_isSome O scr name f v
+  | false =>
+    simp only [Bool.false_eq_true, if_false]
+    cases hd : deser O opts ign f v with
+    | ok y => simp [isOk]
+    | error e =>
+      simp only [isOk]
+      cases (isClassRef f && isDictVal v) <;> rfl
+
+/-- every phase-one site of a document, for a class of ANY declarations: it belongs to a declared
+    field and either begins with that field's own name or is the `nested` site of a class reference -/
+theorem p1SitesD_name_fields (O : Oracles) (opts : DeserOpts) (ign : Bool)
+    (scr : List (String × List (Option String))) (doc : List (String × PyVal))
+    (fields : List (String × FieldDecl)) (s : P1Site) (h : s ∈ p1SitesD O opts ign scr doc fields) :
+    ∃ nf ∈ fields, s.top = nf.1 ∧
+      ((s.kind = .named ∧ s.namesOwnField = true) ∨ (s.kind = .nested ∧ isClassRef nf.2 = true)) := by
+  simp only [p1SitesD, List.mem_filterMap] at h
+  obtain ⟨nf, hnf, hs⟩ := h
+  refine ⟨nf, hnf, ?_⟩
+  cases hl : lookup nf.1 doc with
+  | none => simp [hl] at hs
+  | some v =>
+    simp only [hl] at hs
+    split at hs
+    · simp at hs
+    · cases hx : (isClassRef nf.2 && isDictVal v) with
+      | false =>
+        have := p1SiteD_names_own_field O opts ign _ nf.1 nf.2 v s hs hx
+        exact ⟨this.2.1, Or.inl ⟨this.1, this.2.2⟩⟩
+      | true =>
+        have hk := (p1SiteD_nested_iff O opts ign _ nf.1 nf.2 v s hs).2 hx
+        simp only [Bool.and_eq_true] at hx
+        refine ⟨?_, Or.inr ⟨hk, hx.1⟩⟩
+        unfold p1SiteD at hs
+        have hnf' : isFlatDecl nf.2 = false := by
+          cases hf : isFlatDecl nf.2 with
+          | false => rfl
+          | true => simp [isFlat_not_classRef nf.2 hf] at hx
+        simp only [hnf', Bool.false_eq_true, if_false] at hs
+        cases hd : deser O opts ign nf.2 v with
+        | ok y => simp [hd] at hs
+        | error e =>
+          simp only [hd] at hs
+          split at hs <;> (simp only [Option.some.injEq] at hs; subst hs; rfl)
+
+/-- … in particular: a class without class-reference fields (collections at any depth, inline
+    structures, multi-field wrappers, …) has every phase-one rejection named by its own field -/
+theorem p1SitesD_all_named (O : Oracles) (opts : DeserOpts) (ign : Bool)
+    (scr : List (String × List (Option String))) (doc : List (String × PyVal))
+    (fields : List (String × FieldDecl)) (hno : ∀ nf ∈ fields, isClassRef nf.2 = false)
+    (s : P1Site) (h : s ∈ p1SitesD O opts ign scr doc fields) :
+    ∃ nf ∈ fields, s.top = nf.1 ∧ s.kind = .named ∧ s.namesOwnField = true := by
+  obtain ⟨nf, hnf, htop, hk⟩ := p1SitesD_name_fields O opts ign scr doc fields s h
+  refine ⟨nf, hnf, htop, ?_⟩
+  cases hk with
+  | inl hk => exact hk
+  | inr hk => rw [hno nf hnf] at hk; exact absurd hk.2 (by decide)
+
+/-! ### the path through nested collections (constructor) -/
+
+theorem scalar_is_path (f : FieldDecl) (h : isScalarDecl f = true) : isPathDecl f = true := by
+  cases f <;> simp_all [isScalarDecl, isPathDecl]
+
+theorem all_scalar_is_path (fs : List FieldDecl) (h : fs.all isScalarDecl = true) : allPathDecl fs = true := by
+  induction fs with
+  | nil => rfl
+  | cons f fs ih =>
+    simp only [List.all_cons, Bool.and_eq_true] at h
+    simp [allPathDecl, scalar_is_path f h.1, ih h.2]
+
+/-- the path model's domain extends the statement's flat domain -/
+theorem flat_is_path (f : FieldDecl) (h : isFlatDecl f = true) : isPathDecl f = true := by
+  cases f <;> simp only [isFlatDecl] at h <;> simp only [isPathDecl]
+  case seqOf => exact scalar_is_path _ h
+  case setOf => exact scalar_is_path _ h
+  case tupleOf => exact scalar_is_path _ h
+  case seqPos => exact all_scalar_is_path _ h
+  case tuplePos => exact all_scalar_is_path _ h
+  case mapOf =>
+    simp only [Bool.and_eq_true] at h ⊢
+    exact ⟨scalar_is_path _ h.1, scalar_is_path _ h.2⟩
+  all_goals (first | rfl | simp [isScalarDecl] at h)
+
+/-- C18 over the extended domain: collections nested to any depth over scalars and class
+    references (the statement for the constructor, as `Statement` but with `isPathDecl`) -/
+def StatementDeep : Prop :=
+  ∀ (O : Oracles) (T : Texts) (J : Codec) (ff : Bool) (c : ClassOpts)
+    (fields : List (String × FieldDecl)) (kw : List (String × PyVal)),
+    J.word.Sound → (ff = false → J.RoundTrip) → TextsWellFormed T →
+    fields.all (fun nf => isPathDecl nf.2) = true →
+    Reported O T J ff c fields kw
+
+/-- it implies the flat statement (so it is refuted by the same non-word name) … -/
+theorem statementDeep_implies_statement (h : StatementDeep) : Statement := by
+  intro O T J ff c fields kw hW hJ hT hflat
+  refine h O T J ff c fields kw hW hJ hT ?_
+  rw [List.all_eq_true] at hflat ⊢
+  intro nf hnf
+  exact flat_is_path nf.2 (hflat nf hnf)
+
+theorem statementDeep_false : ¬ StatementDeep := fun h => statement_false (statementDeep_implies_statement h)
+
+/-- … and holds under the same single exclusion (names in `[\w.]+`), at ANY nesting depth: every
+    rejection names its top-level field followed by one suffix per level, collect-all reports
+    exactly the invalid supplied fields -/
+theorem statement_deep_partial (O : Oracles) (T : Texts) (J : Codec) (ff : Bool) (c : ClassOpts)
+    (fields : List (String × FieldDecl)) (kw : List (String × PyVal))
+    (hW : J.word.Sound) (hJ : ff = false → J.RoundTrip) (hT : TextsWellFormed T)
+    (_hp : fields.all (fun nf => isPathDecl nf.2) = true)
+    (hc : identOk J.word c.name.toList = true)
+    (hn : ∀ nf ∈ fields, identOk J.word nf.1.toList = true) :
+    Reported O T J ff c fields kw :=
+  statement_partial O T J ff c fields kw hW hJ hT hc hn
+
+/-- one suffix per nesting level (kernel-checked): `aaa_1_1_1` (Array[Array[Array[Integer(max 5)]]]),
+    `mm_value_key` (Map[String, Map[String, Integer]] with an int key inside), `tt_0_1`
+    (Tuple[Array[Integer], Map] positional), `stt_1` (Set[Tuple[Integer]]: the Set adds nothing),
+    `ai_1` (Array[Inner] given a dict: the class reference itself, `Expected …; Got …`) -/
+theorem deep_path_examples :
+    let O : Oracles := exOracles
+    let int5 : FieldDecl := .integer { max := some (Q.ofInt 5) }
+    let arr (f : FieldDecl) : FieldDecl := .seqOf .list f {}
+    let str : FieldDecl := .string none none none
+    let inner : FieldDecl := .struct { name := "Inner", required := [], accepts := ["Inner"] } [("x", .integer {})] []
+    ((locate O (arr (arr (arr int5))) (.list [.list [.list [.int 1]], .list [.list [.int 2], .list [.int 3, .int 9]]])).suffix.text
+        = "_1_1_1".toList) ∧
+    ((locate O (.mapOf str (.mapOf str (.integer {}) {}) {})
+        (.dict [(.str "a", .dict [(.int 1, .int 2)])])).suffix.text = "_value_key".toList) ∧
+    ((locate O (.tuplePos [arr (.integer {}), .mapOf str (.integer {}) {}] false)
+        (.tuple [.list [.int 1, .str "x"], .dict []])).suffix.text = "_0_1".toList) ∧
+    ((locate O (.setOf false (.tupleOf (.integer {}) false) {})
+        (.set false [.tuple [.int 1], .tuple [.int 2, .str "x"]])).suffix.text = "_1".toList) ∧
+    (locate O (arr inner) (.list [.inst "Inner" [], .dict []]) = ⟨[.idx 1], .gotLast, none⟩) := by
+  decide
+
+/-- the same positions through deserialization (heads every message must begin with), the
+    positional and Map wrappers, and the site of the finding: a top-level class reference given a
+    dict is `nested` (no head); given a non-dict, and inside a collection, it is named -/
+theorem deep_deser_head_examples :
+    let O : Oracles := exOracles
+    let opts : DeserOpts := {}
+    let arr (f : FieldDecl) : FieldDecl := .seqOf .list f {}
+    let str : FieldDecl := .string none none none
+    let inner : FieldDecl := .struct { name := "Inner", required := [], accepts := ["Inner"] } [("x", .integer {})] []
+    let badInner : PyVal := .dict [(.str "x", .str "a")]
+    dHead O opts (arr (arr (.integer {}))) "aa".toList (.list [.list [.int 1], .list [.int 2, .str "x"]])
+      = "aa_1_1".toList ∧
+    dHead O opts (.tuplePos [arr (.integer {}), str] false) "t".toList (.list [.list [.str "x"], .str "s"])
+      = "t_0: t_0".toList ∧
+    dHead O opts (.mapOf str (arr (.integer {})) {}) "ma".toList (.dict [(.str "a", .list [.int 1, .str "x"])])
+      = "ma_1".toList ∧
+    dHead O opts (arr inner) "arr".toList (.list [.dict [(.str "x", .int 1)], badInner]) = "arr_1".toList ∧
+    p1SiteD O opts false [] "inner" inner badInner = some ⟨"inner", .nested, none, .typeErr⟩ ∧
+    p1SiteD O opts false [] "inner" inner (.int 5) =
+      some ⟨"inner", .named, some "inner: Expected a dictionary; Got ".toList, .typeErr⟩ ∧
+    p1SiteD O opts false [] "arr" (arr inner) (.list [badInner]) =
+      some ⟨"arr", .named, some "arr_0".toList, .valueErr⟩ ∧
+    deserInvalid O opts false [("inner", badInner), ("arr", .list [badInner])]
+      [("inner", inner), ("arr", arr inner)] = ["inner", "arr"] := by
+  decide
+
 end Typedpy.C18
